@@ -102,6 +102,7 @@ struct World {
   bool own_empty_polls = false;
   // The calling process "has no descriptor 0": the next open() of a simulated path is handed the number 0
   // (once per run). While set, descriptor 0 belongs to the simulated kernel; the harness never uses stdin.
+  size_t stdio_buffering = 0; // see set_stdio_buffering
   bool hand_out_fd0 = false;
   bool fd0_is_virtual = false; // poll() with no descriptors is answered here (returns 0 at once) instead of really sleeping
 };
@@ -136,6 +137,9 @@ size_t real_pipe_bytes_fed(int fd);
 // FILE* over an inode via fopencookie. mode: "r", "w", "r+". The stream's cookie descriptor is
 // tracked in world().fds like any other (its number is returned through *fd_out if non-null).
 FILE* fopen_inode(std::shared_ptr<Inode> ino, const char* mode, int* fd_out = nullptr, bool seekable = true);
+// Buffering mode given to every stream opened by fopen_inode from now on in this run:
+// 0 = stdio default, 1 = unbuffered (_IONBF), n > 1 = fully buffered with an n-byte buffer.
+void set_stdio_buffering(size_t mode);
 
 // ---- urandom device
 void set_urandom(int mode, uint64_t seed);
